@@ -516,7 +516,11 @@ impl AsyncGenerator {
         generator.borrow_mut().data_mut().context = Some(generator_context);
 
         // 8. Assert: result is never an abrupt completion.
-        assert!(!result.is_throw_completion());
+        // NOTE: The generator body handles every catchable error by itself, so only engine
+        // errors (e.g. an exceeded runtime limit) arrive here; report them to the caller.
+        if result.is_throw_completion() {
+            result.consume()?;
+        }
 
         // 9. Assert: When we return here, genContext has already been removed from the execution context stack and
         //    callerContext is the currently running execution context.
